@@ -98,3 +98,11 @@ package sub
 //@   ensures cast("*socket", result).master.closed == false
 //@
 // ---- end generated default contracts ----
+// ---- generated AddPipe contracts (tools/gen_addpipe_contracts.py) ----
+//@ func (*socket).AddPipe
+//@   ghost wasClosed = s.closed at call:Lock#1
+//@   ensures wasClosed ==> result == protocol.ErrClosed && !spawned("receiver") && !spawned("sender")
+//@   ensures !wasClosed && isnil(result) ==> spawned("receiver")
+//@   ensures !wasClosed ==> isnil(result)
+//@
+// ---- end generated AddPipe contracts ----
